@@ -469,8 +469,10 @@ func callSSA(i *interpreter, caller *frame, callpos token.Pos, fn *ssa.Function,
 			return ext(fr, args)
 		}
 		if ext := summaries[name]; ext != nil && !p.noSumm {
-			p.res.Intrinsics["summary:"+name]++
-			return ext(fr, args)
+			if r := ext(fr, args); r != (declined{}) {
+				p.res.Intrinsics["summary:"+name]++
+				return r
+			}
 		}
 		if p.summ[name] {
 			if ext := optSummaries[name]; ext != nil {
